@@ -83,8 +83,8 @@ class Env(object):
                "R-PRIM": rth.check_rprim, "R-SUBSET": rth.check_rsubset, "R-PROV": rth.check_rprov,
                "R-WL": rs.check_rwl, "R-EXH": rs.check_rexh, "R-DET": rs.check_rdet,
                "R-PARSE": rs.check_rparse, "R-SCOPE": rs.check_rscope, "R-CHK": rs.check_rchk,
-               "R-FLOW": rs.check_rflow, "R-ORDER": rs.check_rorder, "R-OFFSET": rs.check_roffset,
-               "R-SHIFT": rs.check_rshift, "R-INLINE": rs.check_rinline}
+               "R-FLOW": rs.check_rflow, "R-ORDER": rs.check_rorder, "R-OFFSET": rth.check_roffset,
+               "R-SHIFT": rth.check_rshift, "R-INLINE": rs.check_rinline}
         for r in rules:
             full = Ctx("tmp")
             fns[r](full, self.prog)
